@@ -52,7 +52,16 @@ def main():
     finally:
         sh("git -C /repo worktree remove --force %s" % wt)
         sh("rm -rf %s/work/harness_alt" % ROOT)
-    json.dump(out, open(os.path.join(d, "checks_result.json"), "w"), indent=1)
+    # results of checks not re-run this time are kept (a later run of one check must not erase
+    # what other checks reported about the same seeded change)
+    rp = os.path.join(d, "checks_result.json")
+    try:
+        old = json.load(open(rp)).get("checks", {})
+    except Exception:
+        old = {}
+    for p, v in old.items():
+        out["checks"].setdefault(p, v)
+    json.dump(out, open(rp, "w"), indent=1)
     # evidence files of the checked properties were rewritten against the seeded tree: put
     # back what was there before (only those files; other work may be rewriting the rest)
     for p, content in saved.items():
